@@ -47,6 +47,84 @@ pub fn ts(t: u32) -> String {
 pub fn ts_in(past: bool, t: u32) -> String {
     if past { format!("2020-01-01T00:{:02}:{:02}.000Z", t / 60, t % 60) } else { ts(t) }
 }
+// ---------------------------------------------------------------------------------------------
+// instants and their spellings (route `kml-spell`); independent of the engine and of the model
+// ---------------------------------------------------------------------------------------------
+
+/// 2030-06-15T20:30:00Z: `+08:00` lands on the next day, `-08:00` on the same day, other hour
+pub const SPELL_BASE_MS: i64 = 1_907_785_800_000;
+pub const SPELL_TICK_MS: i64 = 250;
+
+fn civil_from_days(z: i64) -> (i64, i64, i64) {
+    let z = z + 719_468;
+    let era = z.div_euclid(146_097);
+    let doe = z.rem_euclid(146_097);
+    let yoe = (doe - doe / 1460 + doe / 36_524 - doe / 146_096) / 365;
+    let doy = doe - (365 * yoe + yoe / 4 - yoe / 100);
+    let mp = (5 * doy + 2) / 153;
+    let d = doy - (153 * mp + 2) / 5 + 1;
+    let m = if mp < 10 { mp + 3 } else { mp - 9 };
+    (yoe + era * 400 + if m <= 2 { 1 } else { 0 }, m, d)
+}
+fn days_from_civil(y: i64, m: i64, d: i64) -> i64 {
+    let y = if m <= 2 { y - 1 } else { y };
+    let era = y.div_euclid(400);
+    let yoe = y.rem_euclid(400);
+    let mp = (m + 9) % 12;
+    let doy = (153 * mp + 2) / 5 + d - 1;
+    era * 146_097 + yoe * 365 + yoe / 4 - yoe / 100 + doy - 719_468
+}
+
+/// Wall-clock fields of the instant `ms` seen at UTC offset `off_min`.
+fn wall(ms: i64, off_min: i64) -> (i64, i64, i64, i64, i64, i64, i64) {
+    let local = ms + off_min * 60_000;
+    let (days, rem) = (local.div_euclid(86_400_000), local.rem_euclid(86_400_000));
+    let (y, m, d) = civil_from_days(days);
+    (y, m, d, rem / 3_600_000, rem / 60_000 % 60, rem / 1000 % 60, rem % 1000)
+}
+
+/// The canonical stored spelling of an instant.
+pub fn canonical(ms: i64) -> String {
+    let (y, m, d, hh, mi, ss, f) = wall(ms, 0);
+    format!("{y:04}-{m:02}-{d:02}T{hh:02}:{mi:02}:{ss:02}.{f:03}Z")
+}
+
+/// Strict reader of the canonical spelling (anything else is not canonical): milliseconds.
+pub fn canonical_ms(s: &str) -> Option<i64> {
+    let b = s.as_bytes();
+    if b.len() != 24 || b[4] != b'-' || b[7] != b'-' || b[10] != b'T' || b[13] != b':' || b[16] != b':' || b[19] != b'.' || b[23] != b'Z' { return None }
+    let num = |r: std::ops::Range<usize>| -> Option<i64> { let t = &s[r]; if t.bytes().all(|c| c.is_ascii_digit()) { t.parse().ok() } else { None } };
+    let (y, m, d, hh, mi, ss, f) = (num(0..4)?, num(5..7)?, num(8..10)?, num(11..13)?, num(14..16)?, num(17..19)?, num(20..23)?);
+    if !(1..=12).contains(&m) || d < 1 || d > 31 || hh > 23 || mi > 59 || ss > 59 { return None }
+    Some(days_from_civil(y, m, d) * 86_400_000 + hh * 3_600_000 + mi * 60_000 + ss * 1000 + f)
+}
+
+/// Spelling `k` of the instant `ms` (all denote the same instant; an inapplicable one falls back
+/// to the canonical spelling).
+pub fn spell_instant(ms: i64, k: u32) -> String {
+    let with = |off: i64, frac: &dyn Fn(i64) -> String, sep: char, zulu: &str| -> String {
+        let (y, m, d, hh, mi, ss, f) = wall(ms, off);
+        let zone = if off == 0 { zulu.to_string() } else { format!("{}{:02}:{:02}", if off < 0 { '-' } else { '+' }, off.abs() / 60, off.abs() % 60) };
+        format!("{y:04}-{m:02}-{d:02}{sep}{hh:02}:{mi:02}:{ss:02}{}{zone}", frac(f))
+    };
+    let f3 = |f: i64| format!(".{f:03}");
+    let shortest = |f: i64| if f == 0 { String::new() } else { format!(".{}", format!("{f:03}").trim_end_matches('0')) };
+    match k {
+        1 => with(0, &f3, 'T', "+00:00"),
+        2 => with(480, &f3, 'T', "Z"),
+        3 => with(-480, &f3, 'T', "Z"),
+        4 => with(330, &f3, 'T', "Z"),
+        5 => with(0, &shortest, 'T', "Z"),
+        6 => with(0, &|f| format!(".{f:03}000"), 'T', "Z"),
+        7 => with(0, &|f| format!(".{f:03}000000"), 'T', "Z"),
+        8 => with(0, &f3, 't', "z"),
+        9 => with(-570, &shortest, 'T', "Z"),
+        10 => with(840, &|f| format!(".{f:03}000"), 'T', "Z"),
+        11 => with(0, &shortest, 'T', "-00:00"),
+        _ => canonical(ms),
+    }
+}
+
 fn ts_back(s: &str) -> u32 {
     let m: u32 = s.get(14..16).and_then(|x| x.parse().ok()).unwrap_or(99);
     let sec: u32 = s.get(17..19).and_then(|x| x.parse().ok()).unwrap_or(99);
@@ -127,8 +205,31 @@ struct CaseState {
     rows: Vec<AssertionRow>,
     ord_of: HashMap<String, usize>,
     past: bool,
+    /// route `kml-spell`: ticks of 250 ms from SPELL_BASE_MS, `FOR TIME` written in spelling `spelling`
+    spell_route: bool,
+    spelling: u32,
     /// KML route: prop ordinal -> (subject concept id, value concept id, predicate name)
     kml_terms: HashMap<usize, (String, String, &'static str)>,
+}
+
+impl CaseState {
+    /// the stored (canonical) text of clock value `t`
+    fn stored(&self, t: u32) -> String {
+        if self.spell_route { canonical(SPELL_BASE_MS + t as i64 * SPELL_TICK_MS) } else { ts_in(self.past, t) }
+    }
+    /// the text the caller writes after `FOR TIME`
+    fn asked(&self, t: u32) -> String {
+        if self.spell_route { spell_instant(SPELL_BASE_MS + t as i64 * SPELL_TICK_MS, self.spelling) } else { ts_in(self.past, t) }
+    }
+    /// the clock value an answer's `valid_at` denotes (it must be canonical)
+    fn clock_of(&self, valid_at: &str) -> u32 {
+        if self.spell_route {
+            match canonical_ms(valid_at) {
+                Some(ms) if ms >= SPELL_BASE_MS && (ms - SPELL_BASE_MS) % SPELL_TICK_MS == 0 => ((ms - SPELL_BASE_MS) / SPELL_TICK_MS) as u32,
+                _ => 99_999,
+            }
+        } else if canonical_ms(valid_at).is_some() { ts_back(valid_at) } else { 99_999 }
+    }
 }
 
 impl World {
@@ -238,7 +339,8 @@ impl Inner {
         for op in ops {
             let line = match op {
                 Op::Reset => { cs = self.fresh_case(); "ok".to_string() }
-                Op::Route(_) => "ok".into(),
+                Op::Route(_) | Op::Spell(_) => "ok".into(),
+                Op::Norm(text) => norm_line(text),
                 Op::Policy(p) => { cs.policy = real_policy(p); cs.den = p.den; "ok".into() }
                 Op::Settings { k, name, accept, material, modes } => {
                     let den = 10 * k;
@@ -366,7 +468,7 @@ impl Inner {
     fn fresh_case(&self) -> CaseState {
         CaseState {
             policy: Policy::baseline(), den: 10, now: 0, functional: false, subject_key: String::new(),
-            props: HashMap::new(), prop_of: HashMap::new(), rows: Vec::new(), ord_of: HashMap::new(), past: false, kml_terms: HashMap::new(),
+            props: HashMap::new(), prop_of: HashMap::new(), rows: Vec::new(), ord_of: HashMap::new(), past: false, spell_route: false, spelling: 0, kml_terms: HashMap::new(),
         }
     }
 
@@ -400,7 +502,6 @@ impl Inner {
         let tag = format!("k{}", self.kml_counter);
         let mut out = Vec::with_capacity(ops.len());
         let mut cs = self.fresh_case();
-        cs.den = 100;
         let mut epistemic = String::new();
         let mut subject_id = String::new();
         let mut actors: HashMap<u32, String> = HashMap::new();
@@ -408,7 +509,9 @@ impl Inner {
         let mut assertion_ids: Vec<String> = Vec::new();
         'ops: for op in ops {
             let line: String = match op {
-                Op::Route(r) => { cs.past = r == "kml-past"; "ok".into() }
+                Op::Route(r) => { cs.past = r == "kml-past"; cs.spell_route = r == "kml-spell"; "ok".into() }
+                Op::Spell(k) => { cs.spelling = *k; "ok".into() }
+                Op::Norm(text) => norm_line(text),
                 Op::Reset => "ok".into(),
                 Op::Settings { k, name, accept, material, modes } => {
                     let den = 10 * k;
@@ -460,8 +563,8 @@ impl Inner {
                     if r.conf >= 0 { fields.push_str(&format!(", confidence: {}", r.conf as f64 / cs.den as f64)) }
                     if r.from.is_some() || r.until.is_some() {
                         let mut vt = Vec::new();
-                        if let Some(f) = r.from { vt.push(format!("from: \"{}\"", ts_in(cs.past, f))) }
-                        if let Some(u) = r.until { vt.push(format!("until: \"{}\"", ts_in(cs.past, u))) }
+                        if let Some(f) = r.from { vt.push(format!("from: \"{}\"", cs.stored(f))) }
+                        if let Some(u) = r.until { vt.push(format!("until: \"{}\"", cs.stored(u))) }
                         fields.push_str(&format!(", valid_time: {{{}}}", vt.join(", ")));
                     }
                     let mut params = Map::new();
@@ -497,7 +600,7 @@ impl Inner {
                     }
                     let Some(pid) = cs.props.get(t).copied() else { out.push("err:prop".into()); continue 'ops };
                     // the three spellings of a BELIEF target: by id, through a bound variable, as a tuple
-                    let at = ts_in(cs.past, cs.now);
+                    let at = cs.asked(cs.now);
                     let form = (self.kml_counter as usize + out.len()) % 3;
                     let (cmd, params) = match (form, cs.kml_terms.get(t)) {
                         (1, _) => (format!("FIND(?b) WHERE {{ ?p PROPOSITION (id: :p) ?b BELIEF (?p) }} FOR TIME \"{at}\"{epistemic}"), json!({"p": pid.to_string()})),
@@ -512,7 +615,7 @@ impl Inner {
                 Op::SlotProject if subject_id.is_empty() => "-".into(),
                 Op::SlotProject => {
                     let predicate = if cs.functional { "status" } else { "mentions" };
-                    let cmd = format!("FIND(?slot) WHERE {{ ?slot BELIEF SLOT (:svc, \"{predicate}\") }} FOR TIME \"{}\"{epistemic}", ts_in(cs.past, cs.now));
+                    let cmd = format!("FIND(?slot) WHERE {{ ?slot BELIEF SLOT (:svc, \"{predicate}\") }} FOR TIME \"{}\"{epistemic}", cs.asked(cs.now));
                     match exec(&self.nexus, &cmd, json!({"svc": subject_id})).await {
                         Ok(res) => {
                             let projections = res.as_array().and_then(|a| a.first()).and_then(|s| s["candidate_projections"].as_array().cloned()).unwrap_or_default();
@@ -529,6 +632,14 @@ impl Inner {
             out.push(line);
         }
         out
+    }
+}
+
+/// `time::normalize` on a text: `ok <ms since the epoch>` (the result must be canonical) or `err`.
+fn norm_line(text: &str) -> String {
+    match anda_cognitive_nexus::time::normalize(text, "FOR TIME") {
+        Ok(stored) => match canonical_ms(&stored) { Some(ms) => format!("ok {ms}"), None => format!("ok not-canonical:{stored}") },
+        Err(_) => "err".into(),
     }
 }
 
@@ -558,7 +669,7 @@ fn render_json(cs: &CaseState, j: &Json, prop: Option<usize>) -> String {
         u: ids(&j["explanation"]["uncertain_assertions"]),
         x,
         pol: format!("{}@{}", j["policy"]["id"].as_str().unwrap_or("?"), j["policy"]["version"]),
-        at: ts_back(j["temporal"]["valid_at"].as_str().unwrap_or("")),
+        at: cs.clock_of(j["temporal"]["valid_at"].as_str().unwrap_or("")),
     }
     .render()
 }
